@@ -123,7 +123,8 @@ func metaLabels(from, to string, pops int, startThread bool) ([]string, bool) {
 		rep()
 		return ls, tail()
 	case "meta:casSleep":
-		if to == "meta:recheck" || to == "done" {
+		// to "mcb:terminate": Start is over and has left the termination to this (handler) goroutine
+		if to == "meta:recheck" || to == "done" || to == "mcb:terminate" {
 			return []string{"casSleep"}, true
 		}
 	case "meta:recheck":
